@@ -2,7 +2,7 @@
 import z3
 
 from pyvc import core
-from pyvc.api import O, unit
+from pyvc.api import O, bounded, unit
 from pyvc.core import SV, prove
 from pyvc.stubs import np as snp
 from pyvc.stubs import pint as spint
@@ -134,3 +134,16 @@ def logic(case):
     prove("dtype_bool", r._array.dtype.is_bool())
     prove("unit_dimensionless", r.unit.dimensionless)
     A.unchanged("a", sa)
+
+
+from . import foundation  # noqa: E402
+
+foundation.register("C07")
+
+
+@bounded("C07", "native", "operators x operand kinds x {float64,float32,int64,int32} x 16 unit pairs (same, compatible, scaled "
+                         "dimensionless, incompatible incl. m vs m**2) x random broadcast shapes; pint as oracle")
+def native(tier, seed):
+    from pyvc import nativerun
+
+    return nativerun.run("contracts.native_arrays:sweep_c07", tier, seed)
